@@ -23,12 +23,63 @@ import (
 )
 
 func c06Search(mgr *Manager, qs string) ([]string, error) {
+	v := mgr.GetView()
+	defer v.Release()
+	return c06SearchView(&v, qs)
+}
+
+// c06InFlight: on one view, taken while jobs may be running, every tag's answers agree with its
+// definition evaluated on that view's data: the search for the tag, the search for the definition, and
+// HasTag for every stream (undecided streams are evaluated on demand, decided ones read from the match set).
+func c06InFlight(mgr *Manager, markDef func(string) (string, bool)) (string, error) {
+	v := mgr.GetView()
+	defer v.Release()
+	for _, ti := range mgr.ListTags() {
+		typ, sub, _ := strings.Cut(ti.Name, "/")
+		none := false
+		if typ == "mark" {
+			// the listing does not show a mark's id list; the harness keeps it
+			ti.Definition, none = markDef(ti.Name)
+		}
+		byTag, err := c06SearchView(&v, typ+":"+sub)
+		if err != nil {
+			return "", fmt.Errorf("search %s:%s: %w", typ, sub, err)
+		}
+		var byDef []string
+		if !none {
+			if byDef, err = c06SearchView(&v, ti.Definition); err != nil {
+				return "", fmt.Errorf("search %q: %w", ti.Definition, err)
+			}
+		}
+		var has []string
+		ctx, cancel := context.WithTimeout(context.Background(), 20*time.Second)
+		err = v.AllStreams(ctx, func(sc StreamContext) error {
+			ok, err := sc.HasTag(ti.Name)
+			if err != nil {
+				return err
+			}
+			if ok {
+				has = append(has, strconv.FormatUint(sc.Stream().ID(), 10))
+			}
+			return nil
+		}, PrefetchTags([]string{ti.Name}))
+		cancel()
+		if err != nil {
+			return "", fmt.Errorf("HasTag(%s): %w", ti.Name, err)
+		}
+		sort.Strings(has)
+		if a, b, c := strings.Join(byTag, " "), strings.Join(byDef, " "), strings.Join(has, " "); a != b || c != b {
+			return fmt.Sprintf("%s := %q (%d undecided): search by tag [%s], HasTag [%s], the definition selects [%s]", ti.Name, ti.Definition, ti.UncertainCount, a, c, b), nil
+		}
+	}
+	return "", nil
+}
+
+func c06SearchView(v *View, qs string) ([]string, error) {
 	q, err := query.Parse(qs)
 	if err != nil {
 		return nil, err
 	}
-	v := mgr.GetView()
-	defer v.Release()
 	ctx, cancel := context.WithTimeout(context.Background(), 20*time.Second)
 	defer cancel()
 	var ids []string
@@ -89,6 +140,23 @@ func TestC06FreshStandin(t *testing.T) {
 		importSomePackets(t, mgr, t1, "pcapProcessed")
 		nStreams := 4
 		defs := map[string]string{}
+		markIDs := map[uint64]bool{}
+		setMark := func(def string) {
+			markIDs = map[uint64]bool{}
+			for _, p := range strings.Split(strings.TrimPrefix(def, "id:"), ",") {
+				if id, err := strconv.ParseUint(p, 10, 64); err == nil {
+					markIDs[id] = true
+				}
+			}
+		}
+		markDef := func(string) (string, bool) {
+			var ids []string
+			for id := range markIDs {
+				ids = append(ids, strconv.FormatUint(id, 10))
+			}
+			sort.Strings(ids)
+			return "id:" + strings.Join(ids, ","), len(ids) == 0
+		}
 		var ops []string
 		names := []string{"tag/a", "tag/b", "service/s", "mark/m"}
 		refDef := func(self string) string {
@@ -125,6 +193,9 @@ func TestC06FreshStandin(t *testing.T) {
 				}
 				if err := mgr.AddTag(n, "red", def); err == nil {
 					defs[n] = def
+					if strings.HasPrefix(n, "mark/") {
+						setMark(def)
+					}
 					ops = append(ops, fmt.Sprintf("AddTag(%s,%q)", n, def))
 				}
 			case 2:
@@ -142,6 +213,9 @@ func TestC06FreshStandin(t *testing.T) {
 				}
 				if err := mgr.UpdateTag(n, UpdateTagOperationUpdateQuery(def)); err == nil {
 					defs[n] = def
+					if strings.HasPrefix(n, "mark/") {
+						setMark(def)
+					}
 					ops = append(ops, fmt.Sprintf("UpdateQuery(%s,%q)", n, def))
 				}
 			case 3:
@@ -150,9 +224,11 @@ func TestC06FreshStandin(t *testing.T) {
 					if rng.Intn(2) == 0 {
 						if mgr.UpdateTag("mark/m", UpdateTagOperationMarkAddStream(ids)) == nil {
 							ops = append(ops, fmt.Sprintf("MarkAdd(%v)", ids))
+							markIDs[ids[0]] = true
 						}
 					} else if mgr.UpdateTag("mark/m", UpdateTagOperationMarkDelStream(ids)) == nil {
 						ops = append(ops, fmt.Sprintf("MarkDel(%v)", ids))
+						delete(markIDs, ids[0])
 					}
 				}
 			case 4:
@@ -164,6 +240,13 @@ func TestC06FreshStandin(t *testing.T) {
 				}
 			default:
 				time.Sleep(time.Duration(rng.Intn(20)) * time.Millisecond)
+			}
+			// while jobs are in flight: a view's answers about every tag agree with the tag's definition
+			evals++
+			if bad, err := c06InFlight(mgr, markDef); err != nil {
+				fail("search-error", strings.Join(ops, "; "), err.Error())
+			} else if bad != "" {
+				fail("in-flight", strings.Join(ops, "; "), bad)
 			}
 		}
 		// wait until the service is quiet and every tag is decided
